@@ -63,7 +63,7 @@ def gen_case(rng, car):
     if r < 0.90:
         A = gen_ttm(rng, cplx)
         ax, kind = subset(rng, len(A.cores))
-        return Op("OSum", [A], [ax]), "sum-ttm:" + kind, None
+        return Op("OSum", [A], [ax, ax + [len(A.cores) + i for i in ax]]), "sum-ttm:" + kind, None
     A = gen_ttm(rng, cplx)
     x = gen_tt(rng, cplx, N=[c.shape[1] for c in A.cores], rmax=2)
     y = gen_tt(rng, cplx, N=[c.shape[2] for c in A.cores], rmax=2)
